@@ -137,6 +137,57 @@ def run_predicates(chk, rng, count, admm, gen_problem, dyadic_start, impl_call, 
             chk.finding(EP_ADMM, inp, msg, "C13_admm_unconstrained_bound", observed=obs)
 
 
+def run_nonneg_predicates(chk, rng, count, admm, gen_problem, dyadic_start, impl_call, Skip):
+    """transcription of C13_admm_nonneg_fixed_point_kkt (+ kkt_optimal): admm(non_negative=True) run for 3000 bodies (tol < 0: the rule cannot
+    fire); IF one more body reproduces (x, dual_var) to 1e-10 x scale THEN x >= 0, gradient >= 0, complementary, gradient = rho * dual_var
+    (1e-6 x scale) and the objective equals the constructed NNLS optimum.  A run that has not converged makes no claim (counted)."""
+    for t in range(count):
+        r = rng.randint(1, 6); m = rng.randint(1, 4)
+        p = gen_problem(rng, r, m, rng.random() < 0.5, 0.0, 0.0)
+        G = p["G"]; UtM = p["B"].T.copy()
+        x = dyadic_start(rng, m, r, rng.choice(["dense", "zero", "infeasible"]))
+        dual = np.zeros((m, r)) if rng.random() < 0.5 else dyadic_start(rng, m, r, "infeasible") / 4
+        n_const = rng.choice([1, 2]); order = rng.randint(0, n_const - 1)
+        inp = {"admm_call": True, "UtM": UtM, "UtU": G, "x": x, "dual_var": dual, "n_const": n_const, "order": order, "constraint": "non_negative",
+               "parameter": 0.0, "n_iter_max": 3000, "tol": -1.0}
+        try:
+            msg, obs = nonneg_message(lambda fn: impl_call(chk, fn), admm, G, UtM, x, dual, n_const, order, np.asarray(p["X"], dtype=float).T)
+        except Skip:
+            continue
+        chk.count(key=("admm_nonneg_fp", r, m, bool(np.any(dual != 0)), p["style"]), nontrivial=r * m > 1)
+        chk.hist("solver", "admm(non_negative=True)/" + ("not converged: no claim" if msg == "" else "fixed point"))
+        if msg:
+            chk.finding(EP_ADMM, inp, msg, "C13_admm_nonneg_fixed_point_kkt", observed=obs)
+
+
+def nonneg_message(call, admm, G, UtM, x, dual, n_const, order, Xopt=None):
+    run = lambda x0, d0, k: call(lambda: admm(UtM.copy(), G.copy(), x0.copy(), d0.copy(), n_iter_max=k, n_const=n_const, order=order, non_negative=True, tol=-1.0))
+    st, out = run(x, dual, 3000)
+    if st != "ok":
+        return f"admm(non_negative=True) raised: {out}", None
+    xo, xs, dv = [np.asarray(a, dtype=float) for a in out]
+    st2, out2 = run(xo, dv, 1)
+    if st2 != "ok":
+        return f"admm(non_negative=True) raised: {out2}", None
+    x2, d2 = np.asarray(out2[0], dtype=float), np.asarray(out2[2], dtype=float)
+    scale = 1.0 + float(np.max(np.abs(UtM))) + float(np.max(np.abs(xo))) + float(np.max(np.abs(dv)))
+    if not (np.all(np.isfinite(xo)) and np.all(np.isfinite(dv))):
+        return "admm(non_negative=True) returned a non-finite state", xo
+    if max(float(np.max(np.abs(x2 - xo))), float(np.max(np.abs(d2 - dv)))) > 1e-10 * scale:
+        return "", None                      # not a fixed point (yet): the theorem makes no claim
+    rho = float(np.trace(G)) / G.shape[0]
+    g = xo @ G - UtM                         # g[c, i] = sum_k UtU[k, i] x[c, k] - UtM[c, i]
+    if float(np.min(xo)) < 0:
+        return "admm(non_negative=True): fixed point with a negative entry", xo
+    if float(np.min(g)) < -1e-6 * scale or float(np.max(np.abs(xo * g))) > 1e-6 * scale * scale or float(np.max(np.abs(g - rho * dv))) > 1e-6 * scale:
+        return "admm(non_negative=True): a state reproduced by the loop body violates the KKT conditions (gradient >= 0, complementarity, gradient = rho * dual_var)", xo
+    if Xopt is not None and np.allclose(G, G.T):
+        obj = lambda V: 0.5 * float(np.sum(V * (V @ G))) - float(np.sum(UtM * V))
+        if abs(obj(xo) - obj(Xopt)) > 1e-6 * (1 + abs(obj(Xopt))):
+            return "admm(non_negative=True): fixed point whose objective differs from the constructed NNLS optimum", xo
+    return None, None
+
+
 def unconstrained_message(call, admm, G, UtM, x, dual, n, n_const, order, tol, kw):
     """transcription of C13_admm_unconstrained_bound (dual_var = 0) and C13_admm_unconstrained_bound_any_dual (the bound from x_1 on)"""
     run = lambda k: call(lambda: admm(UtM.copy(), G.copy(), x.copy(), dual.copy(), n_iter_max=k, n_const=n_const, order=order, tol=tol, **kw))
@@ -176,6 +227,8 @@ def replay(payload, admm):
     if payload.get("predicate") == "C13_admm_unconstrained_bound":
         msg, _ = unconstrained_message(lambda fn: C.call_impl(fn, timeout=120), admm, G, UtM, x, dual, int(inp.get("n_iter_max", 1)), inp.get("n_const"),
                                        inp.get("order"), float(inp.get("tol", 1e-4)), {})
+    elif payload.get("predicate") == "C13_admm_nonneg_fixed_point_kkt":
+        msg, _ = nonneg_message(lambda fn: C.call_impl(fn, timeout=240), admm, G, UtM, x, dual, inp.get("n_const"), inp.get("order"))
     elif payload.get("predicate") == "C13_admm_nonneg":
         msg = f"raised {out}" if st != "ok" else ("negative entry" if float(np.min(out[0])) < 0 else None)
     else:
